@@ -488,6 +488,7 @@ func (w *Worker) apply(st *Stim) {
 	case "pause":
 		if c, ok := w.Clients[st.C]; ok {
 			c.Paused = true
+			w.Log.Add(Event{Ev: "pause", C: st.C})
 		}
 	case "resume":
 		if c, ok := w.Clients[st.C]; ok {
